@@ -1277,3 +1277,13 @@ _add_family(globals(), _sl, 'schemaleak', _sl.oracle, share=0.03)
 from harness import paroverride as _po                  # noqa: E402
 from harness.mixins import add_family as _add_family    # noqa: E402,F811
 _add_family(globals(), _po, 'paroverride', _po.oracle, share=0.02)
+
+
+# derivers among the processes run before the flow-less steps of the `steps` dictionary, through every entry point
+from harness import legacypar as _lp                    # noqa: E402
+_add_family(globals(), _lp, 'legacypar', _lp.oracle, share=0.02)
+
+
+# compartments held in dictionary subclasses (OrderedDict, defaultdict), merged at several places
+from harness import odictmerge as _om                   # noqa: E402
+_add_family(globals(), _om, 'odictmerge', _om.oracle, share=0.02)
